@@ -34,7 +34,7 @@ deriving DecidableEq, Repr
 def Fixes.none : Fixes := ⟨false, false, false⟩
 def Fixes.all : Fixes := ⟨true, true, true⟩
 /-- The code as it is in /repo now.  Flip fields here when the corresponding fix commit lands. -/
-def Fixes.current : Fixes := Fixes.none
+def Fixes.current : Fixes := Fixes.all
 
 /-- the three settings `calculate_reductions` reads -/
 structure Cfg where
